@@ -223,6 +223,24 @@ def run_case(ctx, case):
         except Exception as ex:
             ctx.check("sim.scalar-forms", False, "armodel_sim|raises-on-numpy-scalar-option",
                       case, {"exc": repr(ex), **{k_: repr(v_) for k_, v_ in kws.items()}})
+    if n >= 1:
+        # ... and for the inverse (a mean taken from an integer or single-precision
+        # data set, when it is the same number)
+        kws = {k_: scalar_forms(v_, n + i_ + 1) for i_, (k_, v_) in enumerate(kw.items())}
+        for k_, v_ in list(kws.items()):
+            fv_ = float(np.asarray(v_))
+            if (n + p) % 3 == 0 and np.isfinite(fv_) and float(np.float32(fv_)) == fv_:
+                kws[k_] = np.float32(fv_)
+        ctx.tag("residual:scalar-forms")
+        try:
+            rsf = call(ar.armodel_residual, params, y.copy(), **kws)
+            ctx.check("residual.scalar-forms", same_result(rsf, r),
+                      "armodel_residual|result-depends-on-scalar-type-of-options", case,
+                      lambda: {k_: repr(v_) for k_, v_ in kws.items()})
+        except Exception as ex:
+            ctx.check("residual.scalar-forms", False,
+                      "armodel_residual|raises-on-numpy-scalar-option",
+                      case, {"exc": repr(ex), **{k_: repr(v_) for k_, v_ in kws.items()}})
     if n >= 1 and n <= 300:
         ctx.reuse("armodel_sim", lambda p_, e_: call(ar.armodel_sim, p_, e_, **kw),
                   [phi, e], y, case)
